@@ -303,10 +303,10 @@ def gen(ctx):
     changed = py2lean.write_if_changed(core.LEAN / "NessaiVerif" / "Gen" / "OrderedTx.lean", text)
     ctx.extra["generated"] = {"add_to_nested_samples": dict(source=spec.source, lines=[t.first_line, t.last_line], sha256=t.sha256,
                                                               rewritten=changed)}
-    gen_ops(ctx)
+    gen_store_methods(ctx)
 
 
-def gen_ops(ctx):
+def gen_store_methods(ctx):
     """regenerate Gen/OrderedOps.lean: add_initial_samples, add_samples, remove_samples and finalise of OrderedSamples translated
     statement by statement by harness/pyidx2lean.py; C04.*_source_eq_model prove them equal to the model's operations."""
     from . import core, py2lean
@@ -328,7 +328,7 @@ def gen_ops(ctx):
         ctx.broken(f"translator: cannot read/parse the source: {e}")
         return
     text = ("import NessaiVerif.Model.OrderedSamples\n"
-            "/-\nGENERATED by harness/pyidx2lean.py (harness/c04.py gen_ops) from the CURRENT nessai source — do not edit.\n"
+            "/-\nGENERATED by harness/pyidx2lean.py (harness/c04.py gen_store_methods) from the CURRENT nessai source — do not edit.\n"
             "C04: the index programs of OrderedSamples.\n-/\n"
             "namespace NessaiVerif.Gen.OrderedOps\nopen NessaiVerif NessaiVerif.Np NessaiVerif.Ordered\n\n"
             + "\n".join(parts) + "\nend NessaiVerif.Gen.OrderedOps\n")
